@@ -30,7 +30,7 @@ def gc_jobs(tier, prop):
                 continue
             if name == "sweep_owner":
                 continue          # re-entrant GC_Rem inside a sweep: no result within 10 min at capacity 3 (undecided, see DESIGN.md)
-            if ns == 5 and name == "sweep":
+            if ns == 5 and name in ("sweep", "gc_del"):
                 continue          # GC_Sweep at capacity 5 does not finish within 15 minutes (nested compaction loops over symbolic slots)
             if ns == 1 and name not in ("set_ptr", "mem_ptr", "gc_set", "recurse"):
                 continue          # a capacity-1 registry is always empty at rest
